@@ -103,6 +103,22 @@ def _sub(e: ast.expr, env: Dict[str, ast.expr]) -> ast.expr:
     return simplify(ast.fix_missing_locations(_Subst(env).visit(clone(e))))
 
 
+PURE_CALLS = {'len', 'int', 'bool', 'min', 'max', 'abs', 'hex', 'bin', 'oct', 'isinstance', 'tuple', 'frozenset', 'range', 'ord', 'chr'}
+PURE_METHODS = {'bit_length', 'get', 'startswith', 'endswith', 'to_bytes', 'encode', 'decode', 'items', 'keys', 'values', 'count', 'index'}
+
+
+def _has_effectful_call(e: ast.AST) -> bool:
+    for c in ast.walk(e):
+        if isinstance(c, ast.Call):
+            d = dotted(c.func)
+            if d in PURE_CALLS:
+                continue
+            if isinstance(c.func, ast.Attribute) and c.func.attr in PURE_METHODS:
+                continue
+            return True
+    return False
+
+
 def _in_subset(stmts: Sequence[ast.stmt]) -> bool:
     for st in stmts:
         if isinstance(st, ast.If):
@@ -144,6 +160,7 @@ def block_outcomes(body: Sequence[ast.stmt], own: Optional[Dict[str, Any]] = Non
     own = own or {}
     cls, method = label, ''
     outcomes: List[Outcome] = []
+    counter = [0]
 
     def run(stmts: Sequence[ast.stmt], env: Dict[str, ast.expr], conds: List[str], effects: List[str], depth: int,
             cont: Any) -> None:
@@ -165,6 +182,13 @@ def block_outcomes(body: Sequence[ast.stmt], own: Optional[Dict[str, Any]] = Non
                     targets, value = st.targets, st.value
                 # a call of a private helper on the right-hand side is not supported (keep the subset small)
                 val = _sub(value, env)
+                if _has_effectful_call(val) and all(isinstance(t, ast.Name) for t in targets):
+                    # the value is computed ONCE: bind it to a canonical symbol ($1, $2, .. in binding order) instead of
+                    # substituting the call text into every use (which would hide a call made twice, or made once where two were meant)
+                    counter[0] += 1
+                    sym = f'_v{counter[0]}'
+                    effects = effects + [f'{sym} := {_text(val)}']
+                    val = ast.Name(id=sym, ctx=ast.Load())
                 for t in targets:
                     pairs = list(zip(t.elts, val.elts)) if isinstance(t, ast.Tuple) and isinstance(val, ast.Tuple) and len(t.elts) == len(val.elts) else [(t, val)]
                     new_env = dict(env)
